@@ -80,6 +80,7 @@ def mutants(prog):
         ("origin_: internal float size", G, "Grid.origin_", "size = self.size_tensor()", "size = self._size", "fractional-size"),
         ("resample: output coordinates not mapped into the input cube", CI, "grid_resample", "coords = grid_transform_points(coords, output_grid, axes, input_grid, axes)", "coords = coords", "T13.resample"),
         ("resample: grid from the first image", DI, "ImageBatch.resample", "grid = tuple((grid.resample(out_spacing) for grid in self._grid))", "grid = tuple((self._grid[0].resample(out_spacing) for grid in self._grid))", "T13.resample"),
+        ("conv: crop handed to the grid in tensor order", DI, "ImageBatch.conv", "crop = tuple(reversed(crop))", "crop = tuple(crop)", "T13.conv"),
     ]
     for name, mod, fn, old, new, expect in specs:
         ov = source_sub(prog, mod, fn, old, new)
